@@ -1,4 +1,5 @@
 import Klepto.Driver.Wrapper
+import Klepto.Model.WrapperFail
 import Klepto.Driver.Keys
 import Klepto.Driver.Round
 import Klepto.Driver.Backend
@@ -12,6 +13,7 @@ open Lean
 inductive DState
   | idle
   | wrapper (cfg : Cfg) (s : St Nat Nat)
+  | wrapperF (r : Refuse Nat) (cfg : Cfg) (s : St Nat Nat)
   | cache (c : Cache Nat Nat)
   | keys (c : KeysCfg)
   | round
@@ -26,6 +28,16 @@ def startTrace (j : Json) : DState × Json :=
   | .ok "wrapper" =>
     match wrapCfgOf j with
     | .ok (cfg, s) => (.wrapper cfg s, Json.str "ok")
+    | .error e => (.idle, badOp e)
+  | .ok "wrapperF" =>
+    -- M3F: the cfg line also says which (interned) values the archive refuses, how it writes in bulk, what it raises
+    match (do
+      let (cfg, s) ← wrapCfgOf j
+      let bad ← field j "refuse" >>= natList
+      let atomic ← boolField j "bulkAtomic"
+      let exc ← strField j "exc" >>= excOf
+      pure (({ bad := fun v => bad.contains v, bulkAtomic := atomic, exc := exc } : Refuse Nat), cfg, s) : R (Refuse Nat × Cfg × St Nat Nat)) with
+    | .ok (r, cfg, s) => (.wrapperF r cfg s, Json.str "ok")
     | .error e => (.idle, badOp e)
   | .ok "cache" =>
     match cacheOf j with
@@ -59,6 +71,12 @@ def stepLine (st : DState) (line : String) : DState × Json :=
         | .ok op =>
           let (s', o) := step cfg s op
           (.wrapper cfg s', Json.mkObj (("out", jOut o) :: jSt s'))
+      | .wrapperF r cfg s =>
+        match wrapOpOf j with
+        | .error e => (st, badOp e)
+        | .ok op =>
+          let (s', o) := stepF r cfg s op
+          (.wrapperF r cfg s', Json.mkObj (("out", jOut o) :: jSt s'))
       | .round =>
         match roundStep j with
         | .ok o => (st, o)
